@@ -291,7 +291,27 @@ MODEL += [
     _md('MD12', 4, mlet(2, mlet(3, madd(mvar(3), mvar(2)), mmul(mvar(2), mvar(0))), mvar(1)), ['let-let'], 1,
         'right side with two nested substitutions b[x := u][y := t]', distinct=[[0, 2, 3], [1, 2, 3]]),
 ]
+MODEL += [
+    _md('MD13', 3, mlet(2, mlet(1, mvar(1), madd(mvar(2), mvar(2))), mvar(0)), ['let-var', 'let-subst'], 1,
+        'the class bound to ?b of the substitution rule is merged with another class by an earlier rule of the same call (stale binding), extraction-based method', subst_method='ExtractionSubst', distinct=[[0, 1, 2]], ordered=[[0, 1, 2]]),
+]
+MODEL += [
+    _md('MD14', 3, mlet(2, madd(mvar(2), msum(1, mvar(1))), mvar(0)), ['let-subst'], 1,
+        'a closed binder term inside the let body; the pattern slot of the substitution rule may be any slot already issued, in particular the numeric name a closed node uses for its bound slot', distinct=[[0, 1, 2]], ordered=[[0, 1, 2]]),
+]
+def _md_late(name, body, rules, note, subst_method=None):
+    # names: 0 = bound by the let, 1 = bound by the sum, 2 = free slot of the let's argument (written one operation later: it may equal any slot issued before), 3 = pattern slot
+    R = model_rules(3, 4)
+    ops = [add(body), add(mlet(0, body, mvar(2))), rewrite(*[R[r] for r in rules])]
+    t = T(name, 'Lm', 4, ops, distinct=[[0, 1], [0, 2]], late={2: 1, 3: 2}, note=note, subst_method=subst_method, model=True); t.light = True
+    return t
+MODEL += [
+    _md_late('MD15', msum(1, madd(mvar(0), mvar(1))), ['let-subst'], 'the argument of the let has a free slot that may equal a bound slot stored inside the body class: the substitution must not let the binder capture it (default method)'),
+    _md_late('MD15e', msum(1, madd(mvar(0), mvar(1))), ['let-subst'], 'the same with the extraction-based method', subst_method='ExtractionSubst'),
+]
 MODEL_THOROUGH = [
+    _md('MD13x', 3, mlet(2, mlet(1, mvar(1), madd(mvar(2), mvar(2))), mvar(0)), ['let-var', 'let-subst'], 2,
+        'MD13 with the default method, every order of the names and a second round', distinct=[[0, 1, 2]]),
     _md('MD4x', 3, mmul(mvar(0), msum(2, madd(mvar(2), mvar(1)))), ['sum-pull', 'sum-add', 'distr', 'mul-comm'], 2, 'MD4 with every sharing and order of the names', distinct=[[0, 2], [1, 2]]),
     _md('MD11x', 4, mlet(3, madd(mvar(3), mlet(2, mvar(0), mvar(1))), mvar(0)), ['let-const', 'let-subst'], 2, 'MD11 with every order of the names', distinct=[[0, 1, 2, 3]]),
     _md('MD12x', 4, mlet(2, mlet(3, madd(mvar(3), mvar(2)), mmul(mvar(2), mvar(0))), mvar(1)), ['let-let'], 1,
